@@ -1,9 +1,9 @@
 CONSTANTS
-  Packets <- PktEcs
-  Configs <- CfgSetEcs
-  Contents <- ContentsEcs
+  Packets <- PktRelay
+  Configs <- CfgSetRelay
+  Contents <- ContentsRelay
   MaxQueries = 2
-  Reflects = TRUE
+  Reflects = FALSE
 INIT Init
 NEXT Next
 VIEW View
